@@ -45,6 +45,9 @@ def copy_ecu(ecu_or_glob, source_db, target_db):
         ecu_list = source_db.glob_ecus(ecu_or_glob)
 
     for ecu in ecu_list:
+        if target_db.ecu_by_name(ecu.name) is not None:
+            # ecu already in target_db: keep it and its attribute values as they are
+            continue
         target_db.add_ecu(copy.deepcopy(ecu))
         # copy all ecu-defines
         for attribute in source_db.ecu_defines:
